@@ -41,11 +41,14 @@ class ThreadLocal(Generic[T]):
 
         :return: the stored value, or the value from the default_provider
         """
-        current_thread = threading.current_thread()
-        get = self.__store.get(current_thread.ident, None)
+        # the ident, not threading.current_thread(): for a thread that is ending (its last trace events come after it
+        # left the list of active threads) that call registers a dummy thread, which the application then finds in
+        # threading.enumerate() for ever
+        ident = threading.get_ident()
+        get = self.__store.get(ident, None)
         if get is None:
             get = self.__default_provider()
-            self.__store[current_thread.ident] = get
+            self.__store[ident] = get
         return get
 
     def set(self, val: T):
@@ -54,14 +57,14 @@ class ThreadLocal(Generic[T]):
 
         :param val: the value to store
         """
-        current_thread = threading.current_thread()
-        self.__store[current_thread.ident] = val
+        ident = threading.get_ident()
+        self.__store[ident] = val
 
     def clear(self):
         """Remove the value for this thread."""
-        current_thread = threading.current_thread()
-        if current_thread.ident in self.__store:
-            del self.__store[current_thread.ident]
+        ident = threading.get_ident()
+        if ident in self.__store:
+            del self.__store[ident]
 
     @property
     def is_set(self):
@@ -70,8 +73,8 @@ class ThreadLocal(Generic[T]):
 
         :return: True if there is a value for this thread
         """
-        current_thread = threading.current_thread()
-        return current_thread.ident in self.__store
+        ident = threading.get_ident()
+        return ident in self.__store
 
     @property
     def value(self):
